@@ -188,6 +188,14 @@ func (f *frame) evalCommon(in ssa.Instruction) bool {
 		return true
 	case *ssa.ChangeType:
 		v := f.get(in.X)
+		if x.X.bvMode {
+			fi, fok := x.X.intInfoOf(in.X.Type())
+			ti, tok := x.X.intInfoOf(in.Type())
+			if fok && tok && fi.math != ti.math {
+				f.set(in, Val{T: x.bvConvert(v.T, fi, ti)})
+				return true
+			}
+		}
 		f.set(in, v)
 		return true
 	case *ssa.MultiConvert:
